@@ -163,13 +163,13 @@ func c12MetaCorpus() []any {
 		return hs
 	}
 	for _, hs := range [][]eng.Hook{
-		set("10", "09", "08", "02", "01"),                           // zero padded: 1 2 8 9 10 (octal reading: 08, 09 invalid)
-		set("010", "9"),                                             // 9 before 10 (octal: 8 before 9)
-		set("007", "010", "08", "09", "6"),                          //
-		set("0x10", "5"), set("0o7", "3"), set("0b11", "2"),         // not decimal = 0, first
-		set("1_0", "5"), set("5", " 7", "6 ", "\t8", "3\n", "-1"),  // underscores, white space: 0
-		set("+5", "4", "-0", "-08", "-3", "+-2", "--9", "-", "+"),   // signs
-		set("", "abc", "1e3", "1.5", "-1", "1"),                     // empty and non-numeric = 0
+		set("10", "09", "08", "02", "01"),                   // zero padded: 1 2 8 9 10 (octal reading: 08, 09 invalid)
+		set("010", "9"),                                     // 9 before 10 (octal: 8 before 9)
+		set("007", "010", "08", "09", "6"),                  //
+		set("0x10", "5"), set("0o7", "3"), set("0b11", "2"), // not decimal = 0, first
+		set("1_0", "5"), set("5", " 7", "6 ", "\t8", "3\n", "-1"), // underscores, white space: 0
+		set("+5", "4", "-0", "-08", "-3", "+-2", "--9", "-", "+"), // signs
+		set("", "abc", "1e3", "1.5", "-1", "1"),                   // empty and non-numeric = 0
 		set("9223372036854775807", "9223372036854775808", "-9223372036854775808", "-9223372036854775809", "1", "-1"),
 		set("2147483648", "-2147483649", "4294967296", "99999999999999999999", "000000000000000000000000000007", "5", "-5"),
 	} {
@@ -213,6 +213,24 @@ func c12MetaCorpus() []any {
 	out = append(out, hist(c12Op("install", 1, eng.Flags{}, []eng.Hook{
 		rawHk("ha", both, "l", "hook-succeeded"), rawHk("hb", both, "l", " Hook-Failed,hook-succeeded "), rawHk("hc", both, "l", "nonsense,"),
 	}, "a")))
+	// Job / Pod hooks: outputLogsByPolicy fetches the logs of the hook's pods (GetPodList by job-name label / pod name
+	// field, then OutputContainerLogsForPodList) after the hook's own failure iff hook-failed is listed, and for every
+	// hook of the event, last to first, once all of them succeeded iff hook-succeeded is listed
+	pj := func(kind, name, w, l string, more ...string) eng.Hook {
+		kv := append([]string{"w", w}, more...)
+		if l != "-" {
+			kv = append(kv, "l", l)
+		}
+		return rawHookOf(eng.Res{Kind: kind, Name: name, Fields: map[string]string{"l:h": name}}, both, kv...)
+	}
+	logHooks := []eng.Hook{pj("Job", "hj", "1", "hook-succeeded,hook-failed"), pj("Pod", "hp", "2", " Hook-Failed"),
+		pj("Pod", "hq", "03", "hook-succeeded", "d", "hook-succeeded"), pj("Job", "hk", "4", "-"), pj("ConfigMap", "hc", "5", "hook-succeeded,hook-failed"),
+		pj("Job", "hl", "06", "HOOK-SUCCEEDED ,bar", "d", "hook-failed,before-hook-creation")}
+	out = append(out, hist(c12Op("install", 1, eng.Flags{}, logHooks, "a")))
+	for _, n := range []string{"hj", "hp", "hq", "hk", "hl"} {
+		out = append(out, hist(withH(c12Op("install", 1, eng.Flags{}, logHooks, "a"), n, 0)), hist(withH(c12Op("install", 1, eng.Flags{}, logHooks, "a"), n, 1)))
+	}
+	out = append(out, hist(c12Op("install", 1, eng.Flags{}, logHooks, "a"), withH(c12Op("upgrade", 2, eng.Flags{}, logHooks, "a", "b"), "hp", 1)))
 	return out
 }
 
